@@ -46,29 +46,82 @@ class RandRecorder:
         np.random.rand = self.orig
 
 
-def run_impl(spec, refp, rand_seed=None):
-    """spec: dict(n_ref, bonds, ref (n,3), tgt (m,3), s).  Builds ExchangeMap(ref, tgt, s) and calls it on a copy of
-    the reference placed at refp.  Returns dict(err=...) or dict(out, eq (public equivalences), bondsets, db, da)."""
+def run_sequence(spec, steps):
+    """One map object, several calls.  spec: dict(n_ref, bonds, ref (n,3), tgt (m,3), s).  Builds
+    ExchangeMap(ref_object, tgt_object, s) and performs the calls in `steps`, each a dict with
+      how = "copy"   : the argument is a fresh copy of the reference placed at step["pos"];
+      how = "object" : the argument is the very Molecule object the map was built from, as it currently is;
+      how = "inplace": that object is first moved in place (ref_object.atoms_positions = step["pos"]), then passed.
+    Returns dict(err=..., bondsets) or dict(eq, bondsets, db, map, calls=[dict(how, pos (conformation actually
+    passed), out, da)])."""
     from gaddlemaps import ExchangeMap
     ref = get_mol("R", spec["n_ref"], spec["bonds"])
     tgt = get_mol("T", len(spec["tgt"]), chain_bonds(len(spec["tgt"])))
     ref.atoms_positions = np.array(spec["ref"], dtype=float)
     tgt.atoms_positions = np.array(spec["tgt"], dtype=float)
     bondsets = [list(a.bonds) for a in ref]
-    if rand_seed is not None:
-        np.random.seed(rand_seed)
     with RandRecorder() as rec, np.errstate(all="ignore"):
         try:
             m = ExchangeMap(ref, tgt, spec["s"])
         except IndexError:
             return {"err": "EIndex", "bondsets": bondsets}
         db = list(rec.calls)
-        arg = ref.copy()
-        arg.atoms_positions = np.array(refp, dtype=float)
-        out = m(arg)
-        da = rec.calls[len(db):]
-    return {"out": np.array(out.atoms_positions, dtype=float), "eq": m.equivalences, "bondsets": bondsets,
-            "db": db, "da": da, "map": m}
+        calls = []
+        for st in steps:
+            if st["how"] == "copy":
+                arg = ref.copy()
+                arg.atoms_positions = np.array(st["pos"], dtype=float)
+            else:
+                if st["how"] == "inplace":
+                    ref.atoms_positions = np.array(st["pos"], dtype=float)
+                arg = ref
+            passed = np.array(arg.atoms_positions, dtype=float)
+            n0 = len(rec.calls)
+            out = m(arg)
+            calls.append({"how": st["how"], "pos": passed, "out": np.array(out.atoms_positions, dtype=float),
+                          "da": rec.calls[n0:]})
+    return {"eq": m.equivalences, "bondsets": bondsets, "db": db, "calls": calls, "map": m,
+            "tgt_after": np.array(tgt.atoms_positions, dtype=float)}
+
+
+def call_view(res, i):
+    """the i-th call of a sequence in the shape of a single-call result"""
+    if "err" in res:
+        return res
+    c = res["calls"][i]
+    return {"out": c["out"], "eq": res["eq"], "bondsets": res["bondsets"], "db": res["db"], "da": c["da"],
+            "map": res["map"], "pos": c["pos"], "how": c["how"]}
+
+
+def run_impl(spec, refp, rand_seed=None):
+    """single call on a fresh copy of the reference placed at refp"""
+    if rand_seed is not None:
+        np.random.seed(rand_seed)
+    return call_view(run_sequence(spec, [{"how": "copy", "pos": refp}]), 0)
+
+
+PATTERNS = [["copy"], ["copy"], ["object", "copy", "object"], ["copy", "object"], ["object", "inplace"],
+            ["copy", "inplace", "restore"], ["object", "copy", "copy", "object", "inplace", "object"]]
+
+
+def make_steps(rs, spec, conf_fn, pattern=None):
+    """a call sequence on one map object; conf_fn(rs, spec) draws a new conformation.  "restore" puts the
+    construction-time positions back in place."""
+    if pattern is None:
+        pattern = PATTERNS[rs.randint(len(PATTERNS))]
+    steps = []
+    for how in pattern:
+        if how == "object":
+            steps.append({"how": "object"})
+        elif how == "restore":
+            steps.append({"how": "inplace", "pos": np.array(spec["ref"], dtype=float).tolist()})
+        else:
+            steps.append({"how": how, "pos": np.array(conf_fn(rs, spec), dtype=float).tolist()})
+    return steps
+
+
+def steps_json(steps):
+    return [dict(st, pos=np.array(st["pos"]).tolist()) if "pos" in st else dict(st) for st in steps]
 
 
 def per_target_anchor(eqv, n_tgt, sentinel):
@@ -332,25 +385,35 @@ def shipped_specs(max_ref=10 ** 6):
 
 # ------------------------------------------------------------------ K driver
 def run_K(ctx, items, oracle_on_disagreement):
-    """items: list of (spec, refp, meta).  Runs the implementation, evaluates the model, fills ctx.cov['K'] and
-    returns the disagreeing cases.  oracle_on_disagreement(meta_with_spec) -> list of failed clauses."""
-    cases, metas, hist = [], [], {}
-    for spec, refp, meta in items:
-        res = run_impl(spec, refp)
-        cases.append(case_term(spec, refp, res, is_exact(spec)))
-        mt = dict(meta, spec=spec, refp=np.array(refp).tolist())
-        metas.append(mt)
+    """items: list of (spec, steps, meta).  Runs the sequence on one real map object; EVERY call becomes one
+    correspondence case (the model is pure: build on the construction-time data, apply on the conformation actually
+    passed).  Fills ctx.cov['K'] and returns the disagreeing cases (each carries the whole sequence).
+    oracle_on_disagreement(case_meta) -> list of failed clauses."""
+    cases, metas, hist, hows = [], [], {}, {}
+    for spec, steps, meta in items:
+        res = run_sequence(spec, steps)
+        sj = steps_json(steps)
+        ncalls = 1 if "err" in res else len(res["calls"])
+        for i in range(ncalls):
+            view = call_view(res, i)
+            refp = spec["ref"] if "err" in res else view["pos"]
+            cases.append(case_term(spec, refp, view, is_exact(spec)))
+            metas.append(dict(meta, spec=spec, steps=sj, call=i, refp=np.array(refp).tolist()))
+            how = "err" if "err" in res else "%d:%s" % (min(i, 3), view["how"])
+            hows[how] = hows.get(how, 0) + 1
+            ctx.count(("K", spec["bonds"], spec["ref"], spec["tgt"], spec["s"], np.array(refp).tolist(), i))
         key = "%s/%s" % (spec["geom"], spec["graph"])
         hist[key] = hist.get(key, 0) + 1
-        ctx.count(("K", spec["bonds"], spec["ref"], spec["tgt"], spec["s"], np.array(refp).tolist()))
     for mt in (metas[0], metas[len(metas) // 2], metas[-1]):
         ctx.sample({k: v for k, v in mt.items()})
     codes, log = lib.run_coq_cases(ctx.cid, "K", HEADER, cases, shard=60)
     K = ctx.cov["K"]
     K["cases"] = len(cases)
+    K["map_objects"] = len(items)
     K["input_distribution"] = hist
-    K["n_ref_histogram"] = _hist([m["spec"]["n_ref"] for m in metas])
-    K["n_tgt_histogram"] = _hist([len(m["spec"]["tgt"]) for m in metas], width=10)
+    K["call_kind_histogram (position in the sequence:how)"] = hows
+    K["n_ref_histogram"] = _hist([it[0]["n_ref"] for it in items])
+    K["n_tgt_histogram"] = _hist([len(it[0]["tgt"]) for it in items], width=10)
     K["log"] = log
     if codes is None:
         K["error"] = log
